@@ -1,0 +1,105 @@
+//go:build verif
+
+package stateless
+
+// Contracts for the govc verifier (/verif). Comment-only.
+
+// ---- assumed: the RPC client and the function values the tracker is constructed with ----
+//@ ghost var rpcN int
+//@ ghost var rpcLastSvc string
+//@ ghost var rpcLastMethod string
+
+//@ extern rpc.Client.CallContext(ctx, dest, svcName, svcMethod, args, reply)
+//@   ensures rpcN == old(rpcN) + 1 && rpcLastSvc == svcName && rpcLastMethod == svcMethod
+//@   modifies rpcN, rpcLastSvc, rpcLastMethod, *reply
+
+//@ fnvalue Tracker.getState(ctx)
+//@   ensures err == nil ==> res != nil
+//@   modifies nothing
+
+// the pin/unpin function handed to a worker: may talk to IPFS, touches neither the operation table nor operations
+//@ fnvalue applyPinF.pinF(op)
+//@   modifies rpcN, rpcLastSvc, rpcLastMethod
+
+//@ func (spt *Tracker) pin
+//@   property C05
+//@   ensures rpcN == old(rpcN) + 1 && rpcLastSvc == "IPFSConnector" && rpcLastMethod == "Pin"
+//@   modifies rpcN, rpcLastSvc, rpcLastMethod
+
+//@ func (spt *Tracker) unpin
+//@   property C05
+//@   ensures rpcN == old(rpcN) + 1 && rpcLastSvc == "IPFSConnector" && rpcLastMethod == "Unpin"
+//@   modifies rpcN, rpcLastSvc, rpcLastMethod
+
+// ---- C05: per-instruction rules ----
+
+// a worker step: success ends in Done (and only then is the operation cleaned by the caller);
+// an error ends in Error unless the operation was cancelled meanwhile; type and pin never change
+//@ func applyPinF
+//@   property C05
+//@   requires op != nil
+//@   ensures !res ==> op.phase == optracker.PhaseDone
+//@   ensures res ==> op.phase == old(op.phase) || op.phase == optracker.PhaseInProgress || op.phase == optracker.PhaseError
+//@   ensures op.opType == old(op.opType) && op.pin == old(op.pin)
+//@   ensures forall o *optracker.Operation :: o != op ==> *o == old(*o)
+//@   modifies heap(optracker.Operation), rpcN, rpcLastSvc, rpcLastMethod
+
+// "an instruction that cannot be queued is reported as an error rather than dropped"
+//@ func (spt *Tracker) enqueue
+//@   property C05 C06
+//@   requires tableInv(spt.optracker) && c != nil
+//@   ensures [table-invariant] tableInv(spt.optracker)
+//@   ensures [full-queue-recorded] err != nil ==> err == ErrFullQueue && haskey(spt.optracker.operations, c.Cid) && spt.optracker.operations[c.Cid].phase == optracker.PhaseError && spt.optracker.operations[c.Cid].opType == typ && spt.optracker.operations[c.Cid].pin == c
+//@   ensures [queued] err == nil && spt.optracker.operations[c.Cid] != old(spt.optracker.operations[c.Cid]) ==> spt.optracker.operations[c.Cid].phase == optracker.PhaseQueued && spt.optracker.operations[c.Cid].opType == typ && spt.optracker.operations[c.Cid].pin == c
+//@   ensures [ongoing-kept] err == nil && spt.optracker.operations[c.Cid] == old(spt.optracker.operations[c.Cid]) ==> spt.optracker.operations == old(spt.optracker.operations)
+//@   ensures [others-untouched] forall k cid.Cid :: k != c.Cid ==> (haskey(spt.optracker.operations, k) <==> haskey(old(spt.optracker.operations), k)) && spt.optracker.operations[k] == old(spt.optracker.operations[k])
+//@   ensures rpcN == old(rpcN)
+//@   modifies heap(optracker.OperationTracker), heap(optracker.Operation)
+
+//@ func (spt *Tracker) Track
+//@   property C05
+//@   requires tableInv(spt.optracker) && c != nil
+//@   ensures [table-invariant] tableInv(spt.optracker)
+//@   ensures [meta-ignored] c.Type == api.MetaType ==> err == nil && spt.optracker.operations == old(spt.optracker.operations) && rpcN == old(rpcN)
+//@   ensures [only-full-queue-fails] err != nil ==> err == ErrFullQueue && haskey(spt.optracker.operations, c.Cid) && spt.optracker.operations[c.Cid].phase == optracker.PhaseError
+//@   ensures [others-untouched] forall k cid.Cid :: k != c.Cid ==> (haskey(spt.optracker.operations, k) <==> haskey(old(spt.optracker.operations), k)) && spt.optracker.operations[k] == old(spt.optracker.operations[k])
+//@   modifies heap(optracker.OperationTracker), heap(optracker.Operation), rpcN, rpcLastSvc, rpcLastMethod
+
+//@ func (spt *Tracker) Untrack
+//@   property C05
+//@   requires tableInv(spt.optracker)
+//@   ensures [table-invariant] tableInv(spt.optracker)
+//@   ensures [only-full-queue-fails] err != nil ==> err == ErrFullQueue && haskey(spt.optracker.operations, c) && spt.optracker.operations[c].phase == optracker.PhaseError
+//@   ensures [unpin-queued] err == nil && spt.optracker.operations[c] != old(spt.optracker.operations[c]) ==> spt.optracker.operations[c].opType == optracker.OperationUnpin && spt.optracker.operations[c].phase == optracker.PhaseQueued
+//@   ensures rpcN == old(rpcN)
+//@   modifies heap(optracker.OperationTracker), heap(optracker.Operation), heap(api.Pin)
+
+// "After a recover round ... the re-issued pin using the options recorded in the shared pinset"
+//@ func (spt *Tracker) recoverWithPinInfo
+//@   property C05
+//@   requires tableInv(spt.optracker) && pi != nil
+//@   ensures [unpin-error-retries-unpin] old(pi.Status) == api.TrackerStatusUnpinError && spt.optracker.operations[old(pi.Cid)] != old(spt.optracker.operations[pi.Cid]) ==> spt.optracker.operations[old(pi.Cid)].opType == optracker.OperationUnpin
+//@   ensures [pin-error-retries-pin] (old(pi.Status) == api.TrackerStatusPinError || old(pi.Status) == api.TrackerStatusUnexpectedlyUnpinned) && spt.optracker.operations[old(pi.Cid)] != old(spt.optracker.operations[pi.Cid]) ==> spt.optracker.operations[old(pi.Cid)].opType == optracker.OperationPin
+//@   ensures [recorded-options] (old(pi.Status) == api.TrackerStatusPinError || old(pi.Status) == api.TrackerStatusUnexpectedlyUnpinned) && spt.optracker.operations[old(pi.Cid)] != old(spt.optracker.operations[pi.Cid]) && stErr == nil && getErr == nil ==> haskey(pinset, old(pi.Cid)) && *(spt.optracker.operations[old(pi.Cid)].pin) == pinset[old(pi.Cid)]
+//@   ensures [state-consulted] (old(pi.Status) == api.TrackerStatusPinError || old(pi.Status) == api.TrackerStatusUnexpectedlyUnpinned) && haskey(pinset, old(pi.Cid)) && stErr == nil ==> getErr == nil || getErr != state.ErrNotFound
+//@   ensures [other-status-untouched] old(pi.Status) != api.TrackerStatusPinError && old(pi.Status) != api.TrackerStatusUnexpectedlyUnpinned && old(pi.Status) != api.TrackerStatusUnpinError ==> spt.optracker.operations == old(spt.optracker.operations)
+//@   modifies heap(optracker.OperationTracker), heap(optracker.Operation), heap(api.Pin), heap(api.PinInfo), heap(api.IPFSPinStatus), rpcN, rpcLastSvc, rpcLastMethod
+
+// ---- C06: the per-CID status ----
+//@ spec func remoteFor(p api.Pin, pid peer.ID) bool = !(p.ReplicationFactorMin == -1 && p.ReplicationFactorMax == -1) && !in(pid, elems(p.Allocations))
+//@ spec func ipfsHolds(ips api.IPFSPinStatus) bool = ips == api.IPFSPinStatusDirect || ips == api.IPFSPinStatusRecursive
+//@ spec func ipfsLacks(ips api.IPFSPinStatus) bool = ips == api.IPFSPinStatusIndirect || ips == api.IPFSPinStatusUnpinned
+
+//@ func (spt *Tracker) Status
+//@   property C06
+//@   requires tableInv(spt.optracker)
+//@   ensures res != nil
+//@   ensures [pending-or-failed-operation] haskey(spt.optracker.operations, c) ==> res.Status == opStatus(spt.optracker.operations[c].opType, spt.optracker.operations[c].phase)
+//@   ensures [unpinned-only-if-absent] !haskey(spt.optracker.operations, c) && res.Status == api.TrackerStatusUnpinned ==> !haskey(pinset, c)
+//@   ensures [absent-is-unpinned] !haskey(spt.optracker.operations, c) && !haskey(pinset, c) ==> res.Status == api.TrackerStatusUnpinned || res.Status == api.TrackerStatusClusterError
+//@   ensures [meta-is-sharded] !haskey(spt.optracker.operations, c) && haskey(pinset, c) && pinset[c].Type == api.MetaType ==> res.Status == api.TrackerStatusSharded || res.Status == api.TrackerStatusClusterError
+//@   ensures [elsewhere-is-remote] !haskey(spt.optracker.operations, c) && haskey(pinset, c) && pinset[c].Type != api.MetaType && remoteFor(pinset[c], spt.peerID) ==> res.Status == api.TrackerStatusRemote || res.Status == api.TrackerStatusClusterError
+//@   ensures [pinned-only-if-ipfs-holds] !haskey(spt.optracker.operations, c) && res.Status == api.TrackerStatusPinned ==> haskey(pinset, c) && pinset[c].Type != api.MetaType && !remoteFor(pinset[c], spt.peerID) && ipfsHolds(ips)
+//@   ensures [same-as-listing-when-missing] !haskey(spt.optracker.operations, c) && haskey(pinset, c) && pinset[c].Type != api.MetaType && !remoteFor(pinset[c], spt.peerID) && rpcN == old(rpcN) + 1 && ipfsLacks(ips) && res.Status != api.TrackerStatusClusterError ==> res.Status == api.TrackerStatusUnexpectedlyUnpinned
+//@   ensures [table-untouched] spt.optracker.operations == old(spt.optracker.operations)
+//@   modifies heap(api.PinInfo), heap(api.IPFSPinStatus), rpcN, rpcLastSvc, rpcLastMethod
